@@ -1,7 +1,8 @@
 (* Model/Help.v — executable model of what `--help` lists (property C16).
 
    Modelled code: DataclassWrapper.__init__ (which fields get a FieldWrapper), DataclassWrapper.add_arguments /
-   .title (one argument group per dataclass wrapper, one action per field wrapper), FieldWrapper.get_arg_options
+   .title / .description (one argument group per dataclass wrapper, one action per field wrapper; the description is the
+   class docstring - classes whose source cannot be inspected, one-line docstrings, no field docstrings), FieldWrapper.get_arg_options
    (the `help=` keyword / TEMPORARY_TOKEN rule, `default=`), SimpleHelpFormatter._get_help_string on top of
    argparse.ArgumentDefaultsHelpFormatter, ArgumentParser.print_help / parse_known_args (set-up first; the help action
    prints to stdout and exits), and the order in which FieldWrapper.option_strings lists equal-length spellings.
@@ -24,7 +25,12 @@ Record hfield := mkhf {
   hf_default : option string     (* definition default as `%(default)s` prints it; None = None / no default *)
 }.
 (* one DataclassWrapper (single destination) *)
-Record hwrap := mkhw { hw_qual : string; hw_path : list string; hw_fields : list hfield }.
+Record hwrap := mkhw {
+  hw_qual : string;              (* dataclass.__qualname__ *)
+  hw_path : list string;         (* destination words *)
+  hw_doc : string;               (* the class's __doc__ (the one dataclasses generates when none is written: the signature) *)
+  hw_fields : list hfield
+}.
 
 (* one registered action = one entry of the help *)
 Record entry := mkentry {
@@ -33,7 +39,7 @@ Record entry := mkentry {
   e_default : option string;     (* X of the trailing "(default: X)"; None = nothing printed *)
   e_help : string                (* the help text in front of it *)
 }.
-Record group := mkgroup { g_title : string; g_entries : list entry }.
+Record group := mkgroup { g_title : string; g_desc : string; g_entries : list entry }.
 
 Definition dmap := list (string * string).      (* destination -> default installed from outside the definition *)
 Fixpoint dlookup (k : string) (m : dmap) : option string :=
@@ -102,7 +108,7 @@ Section WithFacts.
     end.
 
   Definition group_of (c : cfg) (D : dmap) (w : hwrap) : group :=
-    mkgroup (title w) (map (entry_of c D) (filter exposedb (hw_fields w))).
+    mkgroup (title w) (hw_doc w) (map (entry_of c D) (filter exposedb (hw_fields w))).
 
   (* the groups added by _preprocessing, in the flattened wrapper order *)
   Definition help_entries (c : cfg) (D : dmap) (F : list hwrap) : list group := map (group_of c D) F.
@@ -130,7 +136,7 @@ Section WithFacts.
     match F with
     | [] => []
     | w :: r => let (fs', rest) := refill_fields (hw_fields w) pool in
-                mkhw (hw_qual w) (hw_path w) fs' :: refill r rest
+                mkhw (hw_qual w) (hw_path w) (hw_doc w) fs' :: refill r rest
     end.
 
   Variable resolve : list fw -> res (list fw).                 (* Gen: resolve_gen (ordered_opts cfg) mode *)
